@@ -7,7 +7,7 @@
     of [BPut]/[BRollback r]; [ops_valid n ops]: every rollback target is at most the
     current revision; [ops_above r ops]: no rollback below revision [r]. *)
 From Coq Require Import NArith List Bool Arith Permutation Sorting.Sorted.
-From Verif Require Import StateBuf.Model StateBuf.BufProofs StateBuf.Db StateBuf.DbProofs.
+From Verif Require Import StateBuf.Model StateBuf.BufProofs StateBuf.Db StateBuf.DbProofs StateBuf.DbRevert.
 Import ListNotations.
 
 (** The index invariant holds initially and after every operation of every valid run, and
@@ -81,6 +81,37 @@ Theorem C12_staged_later_dropped : forall d s d' c,
   block_rollback d s = Ok d' -> alookup c (bs_storage s) = None -> alookup c (d_cache d') = None.
 Proof. exact staged_later_dropped. Qed.
 Print Assumptions C12_staged_later_dropped.
+
+(** Block level (BlockState.Snapshot / Rollback over the account buffer, the storage cache and
+    the handles, with explicit pointers).  [dwf]: every buffer satisfies the index invariant,
+    cached objects exist and no two contracts share one.  [run_ok d0 s0 d0 ops]: the discipline
+    of valid nesting — a handle is staged over a contract cached at snapshot time only if it
+    is that cached object; a contract-level revert does not go below the revision a cached
+    storage had at snapshot time; a nested block revert uses a snapshot taken at or after s0;
+    no Update/Commit/reopen in the span.  Then the revert to s0 never panics and restores the
+    account log, the cache map and the log, trie and dirty flag of every staged storage. *)
+Theorem C12_block_revert_restores : forall d0 s0 ops d,
+  dwf d0 -> block_snapshot d0 = Ok s0 -> run_ok d0 s0 d0 ops -> run d0 ops = Ok d ->
+  exists d', block_rollback d s0 = Ok d' /\ Restored d0 d'.
+Proof. exact block_revert_restores_run. Qed.
+Print Assumptions C12_block_revert_restores.
+
+(** Restored states answer every account read and every storage read of a staged contract
+    as at snapshot time. *)
+Theorem C12_restored_reads : forall d0 d, dwf d0 -> Restored d0 d ->
+  (forall a, get_state d a = get_state d0 a) /\
+  (forall c o k, alookup c (d_cache d0) = Some o ->
+     alookup c (d_cache d) = Some o /\ get_data d o k = get_data d0 o k).
+Proof. exact restored_reads. Qed.
+Print Assumptions C12_restored_reads.
+
+(** The invariant is established by a fresh StateDB and kept by every disciplined run (so the
+    slice accesses of get/rollback/export/stage stay in bounds at block level too). *)
+Theorem C12_dwf_reachable : forall t sa sv s ops d,
+  block_snapshot (sdb_new t sa sv) = Ok s -> run_ok (sdb_new t sa sv) s (sdb_new t sa sv) ops ->
+  run (sdb_new t sa sv) ops = Ok d -> dwf d.
+Proof. exact dwf_reachable. Qed.
+Print Assumptions C12_dwf_reachable.
 
 (** The unrestricted statement is false of the code: an Update between the snapshot and the
     revert leaves the reverted write in the account trie (known finding C12:update-then-rollback). *)
